@@ -94,9 +94,10 @@ type SymAdd struct {
 // RangeSet records `tgt.From = r.From` / `tgt.To = r.To` assignments (symbol ranges).
 type RangeSet struct {
 	Tgt   types.Object
-	Field string // From | To
+	Field string // From | To | From@taken / To@taken (a local was given r.From / r.To here)
 	Src   types.Object
 	Pos   token.Pos
+	Alias bool // the value comes through a local (or a parameter standing for one) that was given r.From / r.To earlier
 }
 type Alt struct {
 	Branches [][]Node
@@ -1841,8 +1842,73 @@ func (ev *gemEval) relabelReturnedRange(nodes []Node, resObj types.Object, resSt
 	return fix(nodes, nil)
 }
 
+// bindTupleFromHelper: index, literal := rw.takeLiteral() — a helper of the package that emits nothing, runs straight
+// through (assignments, plain calls) and returns several values: the string results are known by what the helper
+// returns in that position, evaluated on its own assignments.
+func (ev *gemEval) bindTupleFromHelper(s *ast.AssignStmt, e *env) map[types.Object]bool {
+	bound := map[types.Object]bool{}
+	if len(s.Rhs) != 1 || len(s.Lhs) < 2 {
+		return bound
+	}
+	call, ok := ast.Unparen(s.Rhs[0]).(*ast.CallExpr)
+	if !ok {
+		return bound
+	}
+	info := ev.info()
+	fn := calleeOf(info, call)
+	if fn == nil || fn.Pkg() != ev.g.pkg.Types {
+		return bound
+	}
+	if cg := ev.g.funcs[fn]; cg != nil && cg.Emits {
+		return bound
+	}
+	for _, fd := range allFuncDecls(ev.g.pkg) {
+		if info.Defs[fd.Name] != types.Object(fn) || fd.Body == nil || len(fd.Body.List) == 0 {
+			continue
+		}
+		ret, ok := fd.Body.List[len(fd.Body.List)-1].(*ast.ReturnStmt)
+		if !ok || len(ret.Results) != len(s.Lhs) {
+			return bound
+		}
+		e2 := newEnv()
+		sub := &gemEval{g: ev.g, gf: ev.gf, depth: ev.depth + 1}
+		for _, st := range fd.Body.List[:len(fd.Body.List)-1] {
+			switch t := st.(type) {
+			case *ast.AssignStmt:
+				if len(t.Lhs) == len(t.Rhs) {
+					for i, l := range t.Lhs {
+						if id, ok := l.(*ast.Ident); ok {
+							if ob := info.ObjectOf(id); ob != nil && isStringType(ob.Type()) {
+								e2.vals[ob] = sub.fold(t.Rhs[i], e2)
+							}
+						}
+					}
+				}
+			case *ast.ExprStmt:
+			default:
+				return bound
+			}
+		}
+		for i, l := range s.Lhs {
+			id, ok := l.(*ast.Ident)
+			if !ok || id.Name == "_" {
+				continue
+			}
+			ob := info.ObjectOf(id)
+			if ob == nil || !isStringType(ob.Type()) {
+				continue
+			}
+			e.vals[ob] = sub.fold(ret.Results[i], e2)
+			bound[ob] = true
+		}
+		return bound
+	}
+	return bound
+}
+
 func (ev *gemEval) assign(s *ast.AssignStmt, e *env) []Node {
 	var out []Node
+	tupleBound := ev.bindTupleFromHelper(s, e)
 	// result variable for emitter calls: first LHS
 	var resObj types.Object
 	resStr := ""
@@ -1876,6 +1942,16 @@ func (ev *gemEval) assign(s *ast.AssignStmt, e *env) []Node {
 					continue
 				}
 				ev.bind(obj, s.Rhs[i], e)
+				// from := r.From: a local that stands for one end of an emission's range
+				if ps, ok := ast.Unparen(s.Rhs[i]).(*ast.SelectorExpr); ok && (ps.Sel.Name == "From" || ps.Sel.Name == "To") {
+					if xid, ok := ast.Unparen(ps.X).(*ast.Ident); ok {
+						if _, isField := ev.info().Selections[ps]; isField && obj != nil {
+							e.posAlias[obj] = posRef{ev.info().ObjectOf(xid), ps.Sel.Name}
+							// (taken now: it is the range as it is at this point of the path that counts)
+							out = append(out, RangeSet{Tgt: obj, Field: ps.Sel.Name + "@taken", Src: ev.info().ObjectOf(xid), Pos: s.Pos()})
+						}
+					}
+				}
 				// tgt := parser.Range{From: r.From, …}: the same as the field assignments
 				if cl, ok := ast.Unparen(s.Rhs[i]).(*ast.CompositeLit); ok {
 					for _, el := range cl.Elts {
@@ -1924,6 +2000,9 @@ func (ev *gemEval) assign(s *ast.AssignStmt, e *env) []Node {
 		for i, l := range s.Lhs {
 			if id, ok := l.(*ast.Ident); ok && id.Name != "_" {
 				if obj := ev.info().ObjectOf(id); obj != nil && isStringType(obj.Type()) {
+					if tupleBound[obj] {
+						continue
+					}
 					if i == 0 && ret == nil && ev.retText != nil && ev.retCall != nil && ast.Unparen(s.Rhs[0]) == ast.Expr(ev.retCall) {
 						// the helper was evaluated in place and returned code text it built: the local is that text
 						e.vals[obj] = append([]Part{}, ev.retText...)
@@ -2114,7 +2193,31 @@ func (ev *gemEval) call(call *ast.CallExpr, e *env, onEmit func(*Emit)) []Node {
 		if id, ok := ast.Unparen(call.Args[1]).(*ast.Ident); ok {
 			sa.Tgt = info.ObjectOf(id)
 		}
-		return []Node{sa}
+		// the target range written in place: AddSymbolRange(src, parser.Range{From: from, To: r.To})
+		var pre []Node
+		if cl, ok := ast.Unparen(call.Args[1]).(*ast.CompositeLit); ok {
+			for _, el := range cl.Elts {
+				kv, ok := el.(*ast.KeyValueExpr)
+				if !ok {
+					continue
+				}
+				kid, ok := kv.Key.(*ast.Ident)
+				if !ok || (kid.Name != "From" && kid.Name != "To") {
+					continue
+				}
+				if rs, ok := ast.Unparen(kv.Value).(*ast.SelectorExpr); ok && rs.Sel.Name == kid.Name {
+					if rid, ok := rs.X.(*ast.Ident); ok {
+						pre = append(pre, RangeSet{Field: kid.Name, Src: info.ObjectOf(rid), Pos: call.Pos()})
+					}
+				}
+				if pid, ok := ast.Unparen(kv.Value).(*ast.Ident); ok {
+					if pr, ok := e.posAlias[info.ObjectOf(pid)]; ok && pr.field == kid.Name {
+						pre = append(pre, RangeSet{Field: kid.Name, Src: pr.src, Pos: call.Pos(), Alias: true})
+					}
+				}
+			}
+		}
+		return append(pre, sa)
 	}
 	if cg := ev.g.funcs[fn]; cg != nil && cg.Emits {
 		var out []Node
